@@ -103,16 +103,22 @@ Theorem C17_make_decode_16bit : forall (o : opc) (z : Z) (rest : list N),
 Proof. exact make_decode. Qed.
 Print Assumptions C17_make_decode_16bit.
 
-(* … and beyond 16 bits it is silently truncated (code.go: Make, uint16(o)):
-   the instruction the compiler means is not the one it writes.  Witness
-   replayed on the implementation by the harness (large programs). *)
-Theorem C17_make_truncates_refuted : exists (z : Z) (bs : list N) (i : instr),
-  make OpJump [z] = Some bs /\ decode1 bs = Some (i, []) /\ arg0 i <> Z.to_N z.
+(* … and beyond 16 bits Make fails (code.go after e351c68: ErrOperandRange):
+   the compiler can no longer write an instruction other than the one it means. *)
+Theorem C17_make_rejects_out_of_range : forall (o : opc) (z : Z),
+  has_operand o = true -> (z < 0 \/ 65535 < z)%Z -> make (N_of_opc o) [z] = None.
+Proof. exact make_rejects_out_of_range. Qed.
+Print Assumptions C17_make_rejects_out_of_range.
+
+(* Regression lemma: Make as it was before e351c68 truncated silently
+   (uint16(o)); the witness is the one the harness used to replay. *)
+Theorem C17_make_truncates_before_fix : exists (z : Z) (bs : list N) (i : instr),
+  make_before_fix OpJump [z] = Some bs /\ decode1 bs = Some (i, []) /\ arg0 i <> Z.to_N z.
 Proof.
   exists 65541%Z. eexists. eexists. split; [vm_compute; reflexivity|]. split; [vm_compute; reflexivity|].
   vm_compute. discriminate.
 Qed.
-Print Assumptions C17_make_truncates_refuted.
+Print Assumptions C17_make_truncates_before_fix.
 
 (* ---------- non-vacuity ---------- *)
 (* a 40+-byte program with a conditional, a loop with break and a range loop
